@@ -94,7 +94,6 @@ bool verif_lmm_fresh_values(lmm::System* sys, std::vector<std::pair<const lmm::V
     lmm::MaxMin fresh(false);
     std::unordered_map<const lmm::Constraint*, lmm::Constraint*> cmap;
     std::vector<lmm::Variable*> fvars;
-    // Variables are created in reverse order of the live list since variable_new pushes enabled ones in front
     std::vector<const lmm::Variable*> live;
     for (lmm::Variable const& var : sys->variable_set)
       live.push_back(&var);
